@@ -7,16 +7,40 @@ Open Scope string_scope.
 
 (* (object file, symbol, size in bytes) of every object in a writable section *)
 Definition statics : list (string * string * N) := [
+  ("archive_read_disk_posix.c", "libc:fchdir", 0%N);
+  ("archive_read_disk_posix.c", "libc:readdir", 0%N);
+  ("archive_read_support_format_cab.c", "libc:mktime", 0%N);
+  ("archive_read_support_format_rar.c", "libc:mktime", 0%N);
+  ("archive_string.c", "libc:nl_langinfo", 0%N);
+  ("archive_time.c", "libc:mktime", 0%N);
+  ("archive_util.c", "libc:getenv", 0%N);
   ("archive_version_details.c", "init", 4%N);
   ("archive_version_details.c", "mtx", 40%N);
-  ("archive_version_details.c", "str", 24%N)
+  ("archive_version_details.c", "str", 24%N);
+  ("archive_write_disk_posix.c", "libc:chdir", 0%N);
+  ("archive_write_disk_posix.c", "libc:fchdir", 0%N);
+  ("archive_write_disk_posix.c", "libc:umask", 0%N);
+  ("archive_write_set_format_iso9660.c", "libc:tzset", 0%N);
+  ("archive_write_set_format_zip.c", "libc:nl_langinfo", 0%N)
 ].
 
 (* section each of them lives in (same order) *)
 Definition statics_sections : list string := [
+  "libc";
+  "libc";
+  "libc";
+  "libc";
+  "libc";
+  "libc";
+  "libc";
   ".bss.init.1";
   ".bss.mtx.2";
-  ".bss.str.0"
+  ".bss.str.0";
+  "libc";
+  "libc";
+  "libc";
+  "libc";
+  "libc"
 ].
 
 (* committed classification: (object, symbol, (class code, mutex)); codes: 0 locked:<mutex>,
@@ -24,6 +48,38 @@ Definition statics_sections : list string := [
 Definition classification : list (string * string * (N * string)) := [
   ("*", "crc_tbl", (3%N, ""));
   ("*", "crc_tbl_inited", (3%N, ""));
+  ("*", "libc:asctime", (3%N, ""));
+  ("*", "libc:chdir", (2%N, ""));
+  ("*", "libc:ctime", (3%N, ""));
+  ("*", "libc:fchdir", (2%N, ""));
+  ("*", "libc:getenv", (1%N, ""));
+  ("*", "libc:getgrgid", (3%N, ""));
+  ("*", "libc:getgrnam", (3%N, ""));
+  ("*", "libc:getpwnam", (3%N, ""));
+  ("*", "libc:getpwuid", (3%N, ""));
+  ("*", "libc:gmtime", (3%N, ""));
+  ("*", "libc:localtime", (3%N, ""));
+  ("*", "libc:mblen", (3%N, ""));
+  ("*", "libc:mbrlen(NULL)", (3%N, ""));
+  ("*", "libc:mbrtowc(NULL)", (3%N, ""));
+  ("*", "libc:mbsnrtowcs(NULL)", (3%N, ""));
+  ("*", "libc:mbsrtowcs(NULL)", (3%N, ""));
+  ("*", "libc:mbtowc", (3%N, ""));
+  ("*", "libc:mktime", (0%N, "glibc_tzset_lock"));
+  ("*", "libc:nl_langinfo", (1%N, ""));
+  ("*", "libc:putenv", (3%N, ""));
+  ("*", "libc:rand", (3%N, ""));
+  ("*", "libc:readdir", (0%N, "glibc_dirstream_lock"));
+  ("*", "libc:setenv", (3%N, ""));
+  ("*", "libc:setlocale", (3%N, ""));
+  ("*", "libc:strerror", (3%N, ""));
+  ("*", "libc:strtok", (3%N, ""));
+  ("*", "libc:tzset", (0%N, "glibc_tzset_lock"));
+  ("*", "libc:umask", (2%N, ""));
+  ("*", "libc:wcrtomb(NULL)", (3%N, ""));
+  ("*", "libc:wcsnrtombs(NULL)", (3%N, ""));
+  ("*", "libc:wcsrtombs(NULL)", (3%N, ""));
+  ("*", "libc:wctomb", (3%N, ""));
   ("archive_random.c", "arc4_count", (0%N, "arc4random_mtx"));
   ("archive_random.c", "arc4_stir_pid", (0%N, "arc4random_mtx"));
   ("archive_random.c", "arc4random_mtx", (0%N, "arc4random_mtx"));
